@@ -7,7 +7,13 @@ is a queue drained by the harness), and in about a third of the groups the compo
 (run / LaunchTask / HandleTaskExit / restart / kill / shutdown / exitReason) with a scripted task generator whose
 launches may also raise (SubmissionFailed by OSError / JobLaunchError, UnknownIssue by another exception).  Per case one (workflow of 1-3 stages, exit script per
 task execution) is run through the whole stage loop (run() per stage, initialise() of the next stage, elaunch's
-continue-on-error rule) under several random schedules (different delivery biases); no kill is injected.
+continue-on-error rule) under several random schedules (different delivery biases); no kill is injected.  In 40% of
+the groups every schedule but the first may fire the external stage-completion hook (op ["complete", k], see
+harness/detsim.py) at a random moment; such a schedule is judged on termination, recording, exactly one final state,
+failure reporting and "own outcome or shut-down" (the hook, like a kill, is outside "a given exit reason for every
+task execution").  The stand-in of a RepeatingEngine ends only after ComponentState told it
+notify_all_producers_finished (or after kill()), as the real one: an observer that is never told keeps its stage
+loop from terminating.
 Oracle (model independent, harness/ctrl_sim.py: expected_states / own_outcome restate the documented rules):
   * every run() terminates, every component of every stage that was run ends final and recorded in comp_done;
   * a component that was seen in a final state is never seen in another state afterwards (stage transitions
@@ -36,11 +42,13 @@ from harness import c01 as C01
 
 RULE = ("case = (FlowIR template of 2-8 components over 1-3 stages - random, or built around a motif: replicated "
         "producer with an aggregating consumer in the same or a later stage / shutdown chain across stages / observer "
-        "with several subjects - with at most one replicated chain, aggregators (also without replicated inputs), "
+        "with several subjects / repeating consumers of producers of EARLIER stages (only, or next to a promoted "
+        "same-stage subject) - with at most one replicated chain, aggregators (also without replicated inputs), "
         "repeating observers, random shutdownOn/restartHookOn/maxRestarts, continue-on-error on some stages; exit "
         "script per component - also restarts followed by failing re-submissions, with real engines by a task generator "
         "that raises -; stand-in or real engines; K schedules (quick 5, thorough 10) each run through the whole stage loop: "
-        "Controller.run() per stage, initialise() of the next one).  Non-trivial = >= 3 components after "
+        "Controller.run() per stage, initialise() of the next one; in 40% of the groups all but the first schedule may "
+        "fire the stage-completion hook).  Non-trivial = >= 3 components after "
         "replication, >= 2 distinct op sequences among the K schedules and at least one component ends shut-down or "
         "failed or was restarted (the rules beyond 'success gives finished' are exercised).  Distinct by canonical "
         "JSON of (template, scripts).")
@@ -209,6 +217,10 @@ def check_group(ctx, case, schedules=None, tag_prefix=""):
     ctx.tag("ops-compared", sum(len(r.ops) for r in runs))
     # ---- oracle -----------------------------------------------------------------------------
     hooked = [any(op[0] == "complete" for op in r.ops) for r in runs]
+    # the final maps that are judged against the rules (and that the classifier of the known finding looks at): the
+    # schedules in which the completion hook did not fire
+    detail["finals"] = [r.final for r, hk in zip(runs, hooked) if not hk]
+    detail["finals_of_schedules_with_hook"] = [r.final for r, hk in zip(runs, hooked) if hk]
     for r, hk in zip(runs, hooked):
         if hk:
             ctx.tag("schedules-with-completion-hook")
